@@ -395,7 +395,26 @@ impl Parser {
         let mut values = vec![];
 
         for value_node in input.children() {
-            values.push(Self::value(value_node)?);
+            let value_span = value_node.as_span();
+            let value = Self::value(value_node)?;
+
+            // an element has to be a value: `[g()]` with a `g` that returns nothing compiled, and the
+            // interpreter stopped when it found nothing to put into the list
+            let is_void = value
+                .for_type(&TypecheckFlags::use_class(
+                    input.user_data().get_type_of_executing_class(),
+                ))
+                .is_ok_and(|ty| matches!(ty.disregard_distractors(true), TypeLayout::Void));
+
+            if is_void {
+                return Err(vec![new_err(
+                    value_span,
+                    &input.user_data().get_source_file_name(),
+                    "this expression yields no value (`void`), so it cannot be an element of a list".to_owned(),
+                )]);
+            }
+
+            values.push(value);
         }
 
         let list = List { values };
